@@ -26,6 +26,12 @@ from pyvc.contracts import Bytes, BytesN, Const, IntRange, OneOf, Opt, Str, Tupl
 from spec.hci import (acl_packet, command_complete_packet, command_packet, event_packet, iso_header, iso_sdu_info, le16_bytes, le32_bytes,
                       le_meta_event_packet, sco_packet)
 
+if __import__('os').environ.get('C01_VENDOR'):
+    # optional: also import the vendor modules, whose decorators add their classes to the same registries (the families
+    # below then cover them, or flag them when they override codec methods)
+    import bumble.vendor.android.hci  # noqa: F401
+    import bumble.vendor.zephyr.hci  # noqa: F401
+
 ENVIRONMENT = [
     'the registries and per-class `fields` lists are read by reflection from the imported bumble.hci (A7); classes '
     'registered later at run time (vendor commands/events, HCI_Event.add_vendor_factory factories) are environment: '
